@@ -5,7 +5,7 @@ import os
 
 from vlib.report import Report, Finding, ROOT
 from vlib import prop as P
-from vlib import hooks
+from vlib import hooks, witnesses
 
 HELPER = os.path.join(ROOT, 'bounded', 'c20_roundtrip.py')
 
@@ -32,12 +32,23 @@ def run(tier, seed):
   cov['by_backend']['exhaustive-enumeration'] = res['evaluated'] - len(res['failures'])
   for f in res['failures']:
     rep.add_finding(Finding('C20', 'exhaustive:' + f['kind'], f['what'], replay=f, concrete=True))
+  # run-time evaluation of the embedding contract on the real transpiler (bounded, never counted as proved)
+  from props import _generic
+  _generic.run_bounded(rep, 'C20', 'rt_embed.py', seed, tier,
+                       'run-time evaluation of the embedding contract: options expressions in generated code evaluated')
+  rep.assumptions.append('the rt_embed part is a bounded stand-in (NOT proved): it exercises the composition of the '
+                         'visit_FunctionDef / visit_Lambda trace contracts with templates.replace and the module loader')
+  # regression scenarios (witnesses of recorded findings, demonstrations of the seeded changes): run-time, not proof
+  witnesses.run(rep, 'C20')
   P.finish_proof_coverage(
-      rep, './check C20 (pvc: AST->z3 VCs over malt/core/converter.py; exhaustive to_ast round trip)',
+      rep, './check C20 (pvc: AST->z3 VCs over malt/core/converter.py and malt/converters/functions.py; exhaustive to_ast round trip)',
       ['z3 4.x/5.x SMT solver', 'pvc VC generator (/verif/pvc)', 'CPython ast.unparse/eval for the exhaustive part',
        'frozenset/tuple/enum hash and equality are value based'])
   cov['explanation'] = ('ConversionOptions.__init__/as_tuple/__eq__/__hash__/uses/call_options proved against '
-                        'contracts for symbolic field values; three lemmas over those contracts; to_ast round trip '
+                        'contracts for symbolic field values; the embedding site (FunctionTransformer.visit_FunctionDef / visit_Lambda, '
+                        'event mode): the expression handed to the FunctionScope template is to_ast() of the REQUESTED options for the '
+                        'top-level scope and of their call_options() for nested scopes, on every path; '
+                        'three lemmas over those contracts; to_ast round trip '
                         'enumerated over the complete finite domain')
   return rep.finish()
 
